@@ -6,7 +6,7 @@ cd "$(dirname "$0")"
 command -v java >/dev/null
 test -f /opt/veriftools/tla/tla2tools.jar
 mkdir -p .work/setup && cd .work/setup
-rm -rf cmd && cp -r ../../harness/cmd . && sed "s#@REPO@#${VERIF_REPO:-/repo}#" ../../harness/go.mod.tmpl > go.mod && cp "${VERIF_REPO:-/repo}/go.sum" .
+rm -rf cmd && mkdir -p cmd/kvh && for f in $(cat ../../harness/INTEGRATED); do cp ../../harness/cmd/kvh/$f cmd/kvh/; done && sed "s#@REPO@#${VERIF_REPO:-/repo}#" ../../harness/go.mod.tmpl > go.mod && cp "${VERIF_REPO:-/repo}/go.sum" .
 GOFLAGS=-mod=mod GOPROXY=off go build -tags verif -o /dev/null ./cmd/kvh
 cd ../.. && rm -rf .work/setup
 echo setup ok
